@@ -78,6 +78,7 @@ func (c *matcherCompiler) compileSliceDots(items reflect.Value, isDots func(ast.
 		if n, ok := item.Interface().(ast.Node); ok && isDots(n) {
 			dotPos := n.Pos()
 			c.dots = append(c.dots, dotPos)
+			c.dotKinds = withDotKind(c.dotKinds, dotPos, items.Type())
 			dots = append(dots, dotPos)
 			endSection()
 		} else {
@@ -258,6 +259,7 @@ func (c *replacerCompiler) compileSliceDots(items reflect.Value, isDots func(ast
 		if n, ok := item.Interface().(ast.Node); ok && isDots(n) {
 			dotPos := n.Pos()
 			c.dots = append(c.dots, dotPos)
+			c.dotKinds = withDotKind(c.dotKinds, dotPos, items.Type())
 			dots = append(dots, dotPos)
 			sections = append(sections, current)
 			current = nil
@@ -353,4 +355,13 @@ func lookupSliceDotsSkipped(d data.Data, dots token.Pos) (result []reflect.Value
 	// invalid and we should report that.
 	_ = data.Lookup(d, sliceDotsKey(dots), &sd)
 	return sd.Skipped, sd.Region
+}
+
+// withDotKind records the type of the list that the "..." at pos stands in.
+func withDotKind(kinds map[token.Pos]reflect.Type, pos token.Pos, t reflect.Type) map[token.Pos]reflect.Type {
+	if kinds == nil {
+		kinds = make(map[token.Pos]reflect.Type)
+	}
+	kinds[pos] = t
+	return kinds
 }
